@@ -23,6 +23,11 @@ macro_rules! dim_cases {
             $ctx.case(&nm("mul_s"), "generic", &ps, &|| (), &|x| $mkp(&x[..n]) * x[n]);
             $ctx.case(&nm("div_s"), "generic", &ps, &|| (), &|x| $mkp(&x[..n]) / x[n]);
             $ctx.case(&nm("rem_s"), "generic", &ps, &|| (), &|x| $mkp(&x[..n]) % x[n]);
+            $ctx.case(&nm("add_v_assign"), "generic", two, &|| (), &|x| { let mut p = $mkp(&x[..n]); p += $mkv(&x[n..]); p });
+            $ctx.case(&nm("sub_v_assign"), "generic", two, &|| (), &|x| { let mut p = $mkp(&x[..n]); p -= $mkv(&x[n..]); p });
+            $ctx.case(&nm("mul_s_assign"), "generic", &ps, &|| (), &|x| { let mut p = $mkp(&x[..n]); p *= x[n]; p });
+            $ctx.case(&nm("div_s_assign"), "generic", &ps, &|| (), &|x| { let mut p = $mkp(&x[..n]); p /= x[n]; p });
+            $ctx.case(&nm("rem_s_assign"), "generic", &ps, &|| (), &|x| { let mut p = $mkp(&x[..n]); p %= x[n]; p });
             $ctx.case(&nm("add_ew"), "generic", two, &|| (), &|x| $mkp(&x[..n]).add_element_wise($mkp(&x[n..])));
             $ctx.case(&nm("sub_ew"), "generic", two, &|| (), &|x| $mkp(&x[..n]).sub_element_wise($mkp(&x[n..])));
             $ctx.case(&nm("mul_ew"), "generic", two, &|| (), &|x| $mkp(&x[..n]).mul_element_wise($mkp(&x[n..])));
